@@ -52,6 +52,10 @@ type ReqSpec struct {
 type CaseSpec struct {
 	Reqs   []ReqSpec `json:"reqs"`
 	Events int       `json:"events"`
+	// EvStyle > 0: event payloads take every shape a service may publish (null,
+	// true, bare words, pre-response look-alikes, empty), rotated by EvStyle;
+	// 0 = decimal numbers. The subject carries the index either way.
+	EvStyle int `json:"evstyle,omitempty"`
 	Drop   bool      `json:"drop"`
 	SubLen int       `json:"sublen,omitempty"` // length of a long namespace to Subscribe to (0 = none)
 	// BusyUnsub > 0: that many events are queued inside the adapter behind a
@@ -170,7 +174,7 @@ func runCase(cs CaseSpec) (viols []string, classes map[string]int) {
 	if cs.Events > 0 {
 		u, err := cl.Subscribe("event.x", func(subj string, data []byte, _ error) {
 			evMu.Lock()
-			evGot = append(evGot, string(data))
+			evGot = append(evGot, subj+"|"+string(data))
 			evMu.Unlock()
 		})
 		if err != nil {
@@ -237,7 +241,7 @@ func runCase(cs CaseSpec) (viols []string, classes map[string]int) {
 			time.Sleep(time.Millisecond)
 		}
 		for i := 0; i < cs.Events; i++ {
-			srv.Publish(fmt.Sprintf("event.x.e%d", i%3), []byte(fmt.Sprint(i)))
+			srv.Publish(fmt.Sprintf("event.x.e%d", i), evPayload(cs.EvStyle, i))
 		}
 	}
 	// wait until every request has completed or the longest possible deadline has passed
@@ -369,8 +373,8 @@ func runCase(cs CaseSpec) (viols []string, classes map[string]int) {
 			viols = append(viols, fmt.Sprintf("%d events were published on the subscription, %d reached the callback", cs.Events, len(got)))
 		}
 		for i, g := range got {
-			if g != fmt.Sprint(i) {
-				viols = append(viols, fmt.Sprintf("events reached the callback out of publish order: position %d is %s", i, g))
+			if want := fmt.Sprintf("event.x.e%d|%s", i, evPayload(cs.EvStyle, i)); g != want {
+				viols = append(viols, fmt.Sprintf("events reached the callback out of publish order or changed: position %d is %q, published %q", i, g, want))
 				break
 			}
 		}
@@ -465,6 +469,17 @@ func busyUnsubscribe(srv *Server, cl *resnats.Client, n int) (viols []string) {
 	return viols
 }
 
+// evShapes: payloads a service may publish on an event subject. None of them
+// is special there: pre-responses exist only on request inboxes.
+var evShapes = []string{`null`, `{"values":{"a":1}}`, `true`, `timeout:"5000"`, `false`, ``, `x`, `[1]`, `"s"`, `timeout:"1"`, `-1`, `Timeout`, ` {"a":1}`, `{"idx":0}`}
+
+func evPayload(style, i int) []byte {
+	if style == 0 {
+		return []byte(fmt.Sprint(i))
+	}
+	return []byte(evShapes[(i+style)%len(evShapes)])
+}
+
 func keys(m map[string]bool) []string {
 	var r []string
 	for k := range m {
@@ -499,6 +514,9 @@ func genCase(t *rapid.T) CaseSpec {
 	}
 	if rapid.Bool().Draw(t, "events") {
 		cs.Events = rapid.IntRange(1, 60).Draw(t, "nevents")
+		if rapid.Bool().Draw(t, "evshapes") {
+			cs.EvStyle = rapid.IntRange(1, len(evShapes)).Draw(t, "evstyle")
+		}
 	}
 	if rapid.IntRange(0, 3).Draw(t, "smallmax") == 0 {
 		cs.MaxPayload = rapid.SampledFrom([]int{512, 1024, 5000}).Draw(t, "maxpayload")
